@@ -111,6 +111,8 @@ def run(chk, w):
         return any("dcc_addresses" in (k or "") or "trains" in (k or "") for k in list(L_) + list(D_))
     enumrule.run(chk, P, "C08-ENUM", _pos_getter, 2)
 
+    rules.walkall_rule(chk, P, "C08-WALKALL", lambda f_: f_.relfile in ("src/state/bidib_state.c", "src/highlevel/bidib_highlevel_getter.c"), 40)
+
     chk.rule("C08-FOL", "every mutation of a segment's address list is followed by the derivation before the segment/train mutexes are released")
     nm = 0
     for f in P.repo_functions():
